@@ -6,7 +6,7 @@
     any list of monomials;  [quad_d2], [quad_d1] are its exact second / first partial derivatives. *)
 From Coq Require Import ZArith QArith Reals List Lra Lia Bool Permutation.
 From Coquelicot Require Import Coquelicot.
-From Dadi Require Import Base.Num Base.NumR Base.NumQ Model.Godambe Proofs.GodambeProofs Proofs.GodambePoisson Proofs.GodambeLnBounds Proofs.GodambeRemainder Proofs.MatPerturb Proofs.MatNeumann Proofs.MatStats Proofs.MatLists Proofs.GodambeInverse Proofs.GodambeModelStats.
+From Dadi Require Import Base.Num Base.NumR Base.NumQ Model.Godambe Proofs.GodambeProofs Proofs.GodambePoisson Proofs.GodambeLnBounds Proofs.GodambeRemainder Proofs.MatPerturb Proofs.MatNeumann Proofs.MatStats Proofs.MatLists Proofs.GodambeInverse Proofs.GodambeModelStats Proofs.GodambeAffine Proofs.GodambeNested.
 Import ListNotations.
 Local Open Scope R_scope.
 
@@ -538,3 +538,167 @@ Example C19_poisson_model_FIM_nonvacuous :
   exists v v', var_of (pois_H_mat 1 Bs dt [1]) = Some v /\ var_of H' = Some v' /\ nth 0 v 0 = 1 / 4 /\
     0 < nth 0 v' 0 /\ Rabs (sqrt (nth 0 v' 0) - 1 / 2) <= 4 / 1000.
 Proof. exact poisson_model_FIM_nonvacuous. Qed.
+
+(** ---- properly nested LRT_adjust / Wald_stat / score_stat ----
+    diff_func(q) = func_ex(p0 with p0[nested_indices] = q): the Poisson log-likelihood of the AFFINE mean
+    m_i(q) = c_i + sum_k q_k B_i[idx_k]  =  lin_mean Bs (embed full idx q),  embed full idx q = scatter full idx q ++ [1]
+    (full = p0, idx = nested_indices: NoDup, in range, any order; the last coefficient of each B_i multiplies the constant 1).
+    Hypotheses are on the full point P = embed full idx q: means positive, share bound |P_k B_i[k]| <= rho (ndot P B_i)
+    (constant term included; rho = 1 when all terms are non-negative, C19_share_bound_nonneg).
+    Closed forms = the idx-sub-blocks of the full closed forms at P. *)
+Theorem C19_nested_function_is_full_model :
+  forall (Bs : list (list R)) (dt : @pdata R) full idx q,
+  pois_ll (model_mean Bs false (Some (full, idx))) dt q = pois_ll (lin_mean Bs) dt (embed full idx q).
+Proof. exact pois_ll_nested. Qed.
+
+(** the finite-difference stencils of the nested function at (q; ii, jj) are those of the full model at (P; idx ii, idx jj) *)
+Theorem C19_embed_moves_with_nested_parameter :
+  forall (full : list R) (idx : list nat), NoDup idx -> (forall i, In i idx -> (i < length full)%nat) ->
+  forall q ii v, length q = length idx -> (ii < length idx)%nat ->
+  nth (nth ii idx 0%nat) (embed full idx q) 0 = nth ii q 0 /\
+  embed full idx (upd q ii v) = upd (embed full idx q) (nth ii idx 0%nat) v.
+Proof. exact (fun full idx ND Hr q ii v Hl Hi => conj (nth_embed full idx ND Hr q ii Hl Hi) (embed_upd full idx ND Hr q ii v Hl Hi)). Qed.
+
+Theorem C19_nested_hessian_within_eps2 :
+  forall (Bs : list (list R)) (dt : @pdata R) (full : list R) (idx : list nat) (q : list R) (rho : R) (eps : R) (r c : nat),
+  NoDup idx -> (forall i, In i idx -> (i < length full)%nat) -> length q = length idx ->
+  0 < pd_adj dt -> List.Forall (fun b => 0 < ndot (embed full idx q) b) Bs -> 0 < rho -> share_bound Bs (embed full idx q) rho ->
+  0 < eps -> eps <= / (8 * rho) -> (r < length idx)%nat -> (c < length idx)%nat ->
+  nth r q 0 <> 0 -> Rtiny <= nth r q 0 * eps -> nth c q 0 <> 0 -> Rtiny <= nth c q 0 * eps ->
+  Rabs (nth c (nth r (get_hess (pois_ll (model_mean Bs false (Some (full, idx))) dt) q eps) []) 0
+        - pois_hess Bs dt (embed full idx q) (nth r idx 0%nat) (nth c idx 0%nat))
+  <= 40 * (rho * rho) * pois_abs_hess Bs dt (embed full idx q) (nth r idx 0%nat) (nth c idx 0%nat) * (eps * eps).
+Proof. exact nested_hessian_within_eps2. Qed.
+Print Assumptions C19_nested_hessian_within_eps2.
+
+Theorem C19_nested_gradient_within_eps2 :
+  forall (Bs : list (list R)) (dt : @pdata R) (full : list R) (idx : list nat) (q : list R) (rho : R) (eps : R) (k : nat),
+  NoDup idx -> (forall i, In i idx -> (i < length full)%nat) -> length q = length idx ->
+  0 < pd_adj dt -> List.Forall (fun b => 0 < ndot (embed full idx q) b) Bs -> 0 < rho -> share_bound Bs (embed full idx q) rho ->
+  0 < eps -> eps <= / (8 * rho) -> (k < length idx)%nat -> nth k q 0 <> 0 -> Rtiny <= nth k q 0 * eps ->
+  Rabs (nth k (get_grad (pois_ll (model_mean Bs false (Some (full, idx))) dt) q eps) 0
+        - pois_grad Bs dt (embed full idx q) (nth k idx 0%nat))
+  <= 4 / 3 * (rho * rho) * pois_abs_grad Bs dt (embed full idx q) (nth k idx 0%nat) * (eps * eps).
+Proof. exact nested_gradient_within_eps2. Qed.
+
+(** the plain affine model: every parameter differentiated, constant column kept (model_mean Bs false None q = lin_mean Bs (q ++ [1])) *)
+Theorem C19_affine_hessian_within_eps2 :
+  forall (Bs : list (list R)) (dt : @pdata R) (q : list R) (rho : R) (eps : R) (r c : nat),
+  0 < pd_adj dt -> List.Forall (fun b => 0 < ndot (q ++ [1]) b) Bs -> 0 < rho -> share_bound Bs (q ++ [1]) rho ->
+  0 < eps -> eps <= / (8 * rho) -> (r < length q)%nat -> (c < length q)%nat ->
+  nth r q 0 <> 0 -> Rtiny <= nth r q 0 * eps -> nth c q 0 <> 0 -> Rtiny <= nth c q 0 * eps ->
+  Rabs (nth c (nth r (get_hess (pois_ll (model_mean Bs false None) dt) q eps) []) 0 - pois_hess Bs dt (q ++ [1]) r c)
+  <= 40 * (rho * rho) * pois_abs_hess Bs dt (q ++ [1]) r c * (eps * eps).
+Proof. exact affine_hessian_within_eps2. Qed.
+
+Theorem C19_affine_gradient_within_eps2 :
+  forall (Bs : list (list R)) (dt : @pdata R) (q : list R) (rho : R) (eps : R) (k : nat),
+  0 < pd_adj dt -> List.Forall (fun b => 0 < ndot (q ++ [1]) b) Bs -> 0 < rho -> share_bound Bs (q ++ [1]) rho ->
+  0 < eps -> eps <= / (8 * rho) -> (k < length q)%nat -> nth k q 0 <> 0 -> Rtiny <= nth k q 0 * eps ->
+  Rabs (nth k (get_grad (pois_ll (model_mean Bs false None) dt) q eps) 0 - pois_grad Bs dt (q ++ [1]) k)
+  <= 4 / 3 * (rho * rho) * pois_abs_grad Bs dt (q ++ [1]) k * (eps * eps).
+Proof. exact affine_gradient_within_eps2. Qed.
+
+(** get_godambe on diff_func: H = - get_hess, J, cU entrywise within (explicit constant) * eps^2 of the idx-sub-blocks *)
+Theorem C19_nested_godambe_HJc_within_eps2 :
+  forall (Bs : list (list R)) (full : list R) (idx : list nat) (q : list R) (rho : R) (data : @pdata R) (boots : list (@pdata R)) (eps : R),
+  NoDup idx -> (forall i, In i idx -> (i < length full)%nat) -> length q = length idx ->
+  0 < pd_adj data -> List.Forall (fun bt => 0 < pd_adj bt) boots ->
+  List.Forall (fun b => 0 < ndot (embed full idx q) b) Bs -> 0 < rho -> share_bound Bs (embed full idx q) rho -> boots <> [] ->
+  0 < eps -> eps <= / (8 * rho) -> eps <= 1 ->
+  (forall k, (k < length q)%nat -> nth k q 0 <> 0 /\ Rtiny <= nth k q 0 * eps) ->
+  let P := embed full idx q in
+  let HJc := godambe_HJc (fun bt => pois_ll (model_mean Bs false (Some (full, idx))) bt) q eps data boots in
+  forall i j, (i < length idx)%nat -> (j < length idx)%nat ->
+    Rabs (nth j (nth i (fst (fst HJc)) []) 0 - - pois_hess Bs data P (nth i idx 0%nat) (nth j idx 0%nat))
+      <= 40 * (rho * rho) * pois_abs_hess Bs data P (nth i idx 0%nat) (nth j idx 0%nat) * (eps * eps) /\
+    Rabs (nth j (nth i (snd (fst HJc)) []) 0 - J_entry (nest_grads Bs P idx boots) i j)
+      <= nsum (map (J_const rho Bs P (nth i idx 0%nat) (nth j idx 0%nat)) boots) / IZR (Z.of_nat (length boots)) * (eps * eps) /\
+    Rabs (nth i (snd HJc) 0 - cU_entry (nest_grads Bs P idx boots) i)
+      <= nsum (map (grad_const rho Bs P (nth i idx 0%nat)) boots) / IZR (Z.of_nat (length boots)) * (eps * eps).
+Proof. exact nested_godambe_HJc_within_eps2. Qed.
+Print Assumptions C19_nested_godambe_HJc_within_eps2.
+
+(** the closed-form nested Hessian is the [sub_mat idx] block of the full closed-form Hessian *)
+Theorem C19_nested_closed_form_is_sub_block :
+  forall (Bs : list (list R)) (data : @pdata R) (P : list R) (idx : list nat) (N : nat),
+  (forall i, In i idx -> (i < N)%nat) -> nest_H_mat Bs data P idx = sub_mat idx (pois_H_mat N Bs data P).
+Proof. exact nest_H_mat_sub_block. Qed.
+
+(** LRT_adjust, Wald_stat, score_stat for ANY subset of nested parameters (n = len(nested_indices)), numpy.linalg.inv as oracle *)
+Theorem C19_poisson_nested_LRT_Wald_score_within_eps2 :
+  forall (n : nat) (inv : list (list R) -> list (list R)),
+  (forall M, wf n M -> invertible n M -> wf n (inv M) /\ is_inv n (ent M) (ent (inv M))) ->
+  forall (Bs : list (list R)) (full : list R) (idx : list nat) (q : list R) (rho : R) (data : @pdata R) (boots : list (@pdata R)) (eps : R),
+  length idx = n ->
+  NoDup idx -> (forall i, In i idx -> (i < length full)%nat) -> length q = length idx ->
+  0 < pd_adj data -> List.Forall (fun bt => 0 < pd_adj bt) boots ->
+  List.Forall (fun b => 0 < ndot (embed full idx q) b) Bs -> 0 < rho -> share_bound Bs (embed full idx q) rho -> boots <> [] ->
+  0 < eps -> eps <= / (8 * rho) -> eps <= 1 ->
+  (forall k, (k < length q)%nat -> nth k q 0 <> 0 /\ Rtiny <= nth k q 0 * eps) ->
+  let P := embed full idx q in
+  let HJc := godambe_HJc (fun bt => pois_ll (model_mean Bs false (Some (full, idx))) bt) q eps data boots in
+  let H' := fst (fst HJc) in let J' := snd (fst HJc) in let cU' := snd HJc in
+  let Hc := nest_H_mat Bs data P idx in let Jc := nest_J_mat Bs P idx boots in let cUc := nest_cU_vec Bs P idx boots in
+  let CH := CH_nest rho Bs data P idx in let CJ := CJ_nest rho Bs P idx boots in let Cc := Cc_nest rho Bs P idx boots in
+  (forall k : R,
+   invertible n Hc -> mnorm n (ent (inv Hc)) * (CH * (eps * eps)) <= 1 / 2 ->
+   trace (mat_mul Jc (inv Hc)) <> 0 ->
+   KT (mnorm n (ent (inv Hc))) (mnorm n (ent Jc)) CH CJ * (eps * eps) <= Rabs (trace (mat_mul Jc (inv Hc))) / 2 ->
+   invertible n H' /\ trace (mat_mul J' (inv H')) <> 0 /\
+   Rabs (k / trace (mat_mul J' (inv H')) - k / trace (mat_mul Jc (inv Hc)))
+   <= 2 * Rabs k * KT (mnorm n (ent (inv Hc))) (mnorm n (ent Jc)) CH CJ
+      / (trace (mat_mul Jc (inv Hc)) * trace (mat_mul Jc (inv Hc))) * (eps * eps)) /\
+  (forall d : list R, length d = n ->
+   Rabs (qform H' d - qform Hc d) <= vnorm n (vec d) * vnorm n (vec d) * CH * (eps * eps) /\
+   (invertible n Jc -> mnorm n (ent (inv Jc)) * (CJ * (eps * eps)) <= 1 / 2 ->
+    Rabs (qform (gim_of inv H' J') d - qform (gim_of inv Hc Jc) d)
+    <= vnorm n (vec d) * vnorm n (vec d) * KG (mnorm n (ent Hc)) (mnorm n (ent (inv Jc))) CH CJ * (eps * eps))) /\
+  (invertible n Jc -> mnorm n (ent (inv Jc)) * (CJ * (eps * eps)) <= 1 / 2 ->
+   invertible n J' /\
+   Rabs (qform (inv J') cU' - qform (inv Jc) cUc) <= KG (vnorm n (vec cUc)) (mnorm n (ent (inv Jc))) Cc CJ * (eps * eps)) /\
+  (invertible n Hc -> mnorm n (ent (inv Hc)) * (CH * (eps * eps)) <= 1 / 2 ->
+   invertible n H' /\
+   Rabs (qform (inv H') cU' - qform (inv Hc) cUc) <= KG (vnorm n (vec cUc)) (mnorm n (ent (inv Hc))) Cc CH * (eps * eps)).
+Proof. exact poisson_nested_LRT_Wald_score_within_eps2. Qed.
+Print Assumptions C19_poisson_nested_LRT_Wald_score_within_eps2.
+
+(** the same for the model's own lrt_adjust / wald_stat / score_stat (mat_inv_v with its certificate); no oracle *)
+Theorem C19_poisson_nested_model_LRT_Wald_score_within_eps2 :
+  forall (Bs : list (list R)) (full : list R) (idx : list nat) (q : list R) (rho : R) (data : @pdata R) (boots : list (@pdata R)) (eps : R),
+  NoDup idx -> (forall i, In i idx -> (i < length full)%nat) -> length q = length idx ->
+  0 < pd_adj data -> List.Forall (fun bt => 0 < pd_adj bt) boots ->
+  List.Forall (fun b => 0 < ndot (embed full idx q) b) Bs -> 0 < rho -> share_bound Bs (embed full idx q) rho -> boots <> [] ->
+  0 < eps -> eps <= / (8 * rho) -> eps <= 1 ->
+  (forall k, (k < length q)%nat -> nth k q 0 <> 0 /\ Rtiny <= nth k q 0 * eps) ->
+  let n := length idx in
+  let P := embed full idx q in
+  let HJc := godambe_HJc (fun bt => pois_ll (model_mean Bs false (Some (full, idx))) bt) q eps data boots in
+  let H' := fst (fst HJc) in let J' := snd (fst HJc) in let cU' := snd HJc in
+  let Hc := nest_H_mat Bs data P idx in let Jc := nest_J_mat Bs P idx boots in let cUc := nest_cU_vec Bs P idx boots in
+  let CH := CH_nest rho Bs data P idx in let CJ := CJ_nest rho Bs P idx boots in let Cc := Cc_nest rho Bs P idx boots in
+  forall Hi Hi' Ji Ji',
+  mat_inv_v Hc = Some Hi -> mat_inv_v H' = Some Hi' -> mat_inv_v Jc = Some Ji -> mat_inv_v J' = Some Ji' ->
+  mnorm n (ent Hi) * (CH * (eps * eps)) <= 1 / 2 -> mnorm n (ent Ji) * (CJ * (eps * eps)) <= 1 / 2 ->
+  (let t := trace (mat_mul Jc Hi) in let KLRT := KT (mnorm n (ent Hi)) (mnorm n (ent Jc)) CH CJ in
+   t <> 0 -> KLRT * (eps * eps) <= Rabs t / 2 ->
+   exists a a', lrt_adjust Hc Jc = Some a /\ lrt_adjust H' J' = Some a' /\
+     Rabs (a' - a) <= 2 * Rabs (IZR (Z.of_nat n)) * KLRT / (t * t) * (eps * eps)) /\
+  (forall d : list R, length d = n ->
+   exists w w', wald_stat Hc Jc d = Some w /\ wald_stat H' J' d = Some w' /\
+     Rabs (fst w' - fst w) <= vnorm n (vec d) * vnorm n (vec d) * KG (mnorm n (ent Hc)) (mnorm n (ent Ji)) CH CJ * (eps * eps) /\
+     Rabs (snd w' - snd w) <= vnorm n (vec d) * vnorm n (vec d) * CH * (eps * eps)) /\
+  (exists s s', score_stat Hc Jc cUc = Some s /\ score_stat H' J' cU' = Some s' /\
+     Rabs (fst s' - fst s) <= KG (vnorm n (vec cUc)) (mnorm n (ent Ji)) Cc CJ * (eps * eps) /\
+     Rabs (snd s' - snd s) <= KG (vnorm n (vec cUc)) (mnorm n (ent Hi)) Cc CH * (eps * eps)).
+Proof. exact poisson_nested_model_LRT_Wald_score_within_eps2. Qed.
+Print Assumptions C19_poisson_nested_model_LRT_Wald_score_within_eps2.
+
+(** non-vacuity: p0 = (1, 2), second parameter nested, one spectrum entry m(q) = 1 + q + 1, d = 8, one bootstrap = data,
+    eps = 1/100, oracle = reciprocal: closed forms H = (1/2), J = (1); the LRT adjustment 1/trace(J' inv H') is within 11/1000 of 1/2 *)
+Example C19_poisson_nested_LRT_nonvacuous :
+  let Bs := [[1; 1; 1]] in let dt := {| pd_adj := 1; pd_d := [8]; pd_g := [0] |} in
+  let HJc := godambe_HJc (fun bt => pois_ll (model_mean Bs false (Some ([1; 2], [1%nat]))) bt) [2] (1 / 100) dt [dt] in
+  trace (mat_mul (snd (fst HJc)) (inv1 (fst (fst HJc)))) <> 0 /\
+  Rabs (1 / trace (mat_mul (snd (fst HJc)) (inv1 (fst (fst HJc)))) - 1 / 2) <= 11 / 1000.
+Proof. exact poisson_nested_LRT_nonvacuous. Qed.
